@@ -112,6 +112,8 @@ package clip
 // the outer ring decides; after that every hole / polygon / member is clipped: the loops are left only
 // when the index has passed the last element
 //@ func Polygon(b, p)
+//@   return 1: len(p) == 0
+//@   return 2: r == nil
 //@   ensures len(p) == 0 ==> result == nil
 //@   ensures result != nil ==> len(result) >= 1 && len(result) <= len(p)
 //@   loop 1: invariant 1 <= i && i <= len(p) && len(result) >= 1 && len(result) <= i
@@ -133,8 +135,11 @@ package clip
 // a non-nil answer always holds something: a slice kind comes back with at least one element, a
 // one-member multi is unwrapped to its member (so a returned multi has at least two), a bound is
 // returned only when the intersection is not empty
+// Ring gives up (nil) only on what the clipper returned: the one `return nil` is taken only when the
+// clipped ring is empty; Polygon gives up only for a polygon without rings or an outer ring clipped away
 //@ func Ring(b, r)
 //@   ensures result == nil <==> len(result) == 0
+//@   return 1: len(result) == 0
 //@ spec remains(x orb.Geometry) bool = (istype(x, orb.MultiPoint) ==> len(as(x, orb.MultiPoint)) >= 2) && (istype(x, orb.MultiLineString) ==> len(as(x, orb.MultiLineString)) >= 2) && (istype(x, orb.Ring) ==> len(as(x, orb.Ring)) >= 1) && (istype(x, orb.Polygon) ==> len(as(x, orb.Polygon)) >= 1) && (istype(x, orb.MultiPolygon) ==> len(as(x, orb.MultiPolygon)) >= 2) && (istype(x, orb.Collection) ==> len(as(x, orb.Collection)) >= 2) && (istype(x, orb.Bound) ==> !isempty(as(x, orb.Bound)))
 // (for a collection argument only "nil when empty" is claimed: the generic clip carries no frame —
 // it uses its argument as scratch space — so nothing survives about members clipped earlier)
